@@ -47,7 +47,6 @@ pub fn run(
         }
 
         let mut best_candidate: Option<(Vec<EdgeTraversal>, Cost)> = None;
-        let accepted_before = accepted.len();
 
         // build alternates off of most recently-picked accepted result
         let prev_accepted_path =
@@ -132,15 +131,14 @@ pub fn run(
                     }
                 }
             }
-            if let Some((ref best_path, _)) = best_candidate {
-                accepted.push(best_path.clone());
-            }
         }
 
-        // no spur search of this pass produced an acceptable alternative: the
+        // the best candidate over all spur indices of this pass becomes the next accepted
+        // route. when no spur search of this pass produced an acceptable alternative, the
         // alternatives are exhausted, and another pass would find the same nothing
-        if accepted.len() == accepted_before {
-            break;
+        match best_candidate {
+            Some((best_path, _)) => accepted.push(best_path),
+            None => break,
         }
     }
 
